@@ -56,19 +56,19 @@ const (
 )
 
 type c12File struct {
-	Key   string `json:"key"`            // storage key
-	Kind  string `json:"kind"`           // daily | daily7 | other | cold
-	Meas  string `json:"meas"`           // cpu | raw
-	Rows  int    `json:"rows,omitempty"` // parquet rows
-	Size  int    `json:"size"`           // bytes
-	Day   int    `json:"day"`
-	data  []byte
+	Key    string `json:"key"`            // storage key
+	Kind   string `json:"kind"`           // daily | daily7 | other | cold
+	Meas   string `json:"meas"`           // cpu | raw
+	Rows   int    `json:"rows,omitempty"` // parquet rows
+	Size   int    `json:"size"`           // bytes
+	Day    int    `json:"day"`
+	data   []byte
 	isCand bool
 }
 
 type c12Step struct {
-	Kind    string  `json:"kind"`              // cycle | reconcile
-	Crash   string  `json:"crash,omitempty"`   // "", hot, cold
+	Kind    string  `json:"kind"`            // cycle | reconcile
+	Crash   string  `json:"crash,omitempty"` // "", hot, cold
 	CrashAt int     `json:"crash_at,omitempty"`
 	MidFrac float64 `json:"mid_frac,omitempty"`
 	Fail    string  `json:"fail,omitempty"` // copy-read | copy-write | update-tier | delete-src | update-tier+rollback
@@ -641,7 +641,7 @@ func c12CloneFiles(c *c12Case) *c12Case {
 func TestVerifC12_EnumCrash(t *testing.T) {
 	db := c12Duck(t)
 	seed := c12Seed()
-	layouts := verifkit.Scale(6, 120)
+	layouts := verifkit.Scale(6, 40)
 	complete := true
 	for li := 0; li < layouts; li++ {
 		base := rapid.Custom(func(rt *rapid.T) *c12Case { return genC12Case(rt, li%5 == 0) }).Example(seed*101 + li)
@@ -673,7 +673,7 @@ func TestVerifC12_EnumCrash(t *testing.T) {
 func TestVerifC12_EnumFail(t *testing.T) {
 	db := c12Duck(t)
 	seed := c12Seed()
-	layouts := verifkit.Scale(3, 60)
+	layouts := verifkit.Scale(3, 20)
 	for li := 0; li < layouts; li++ {
 		base := rapid.Custom(func(rt *rapid.T) *c12Case { return genC12Case(rt, false) }).Example(seed*211 + li)
 		keys := []string{}
